@@ -170,7 +170,8 @@ pub fn vocab_letters() -> Vec<Letter> {
         }
     }
     // (on-site heat as the input of a cogenerator is unusual but declarable: a solar or geothermal ORC unit)
-    for car in ["GASNATURAL", "GASOLEO", "GLP", "CARBON", "BIOCARBURANTE", "BIOMASA", "BIOMASADENSIFICADA", "RED1", "RED2", "TERMOSOLAR", "EAMBIENTE"] {
+    // (... and electricity itself is declarable as the input of a cogenerator, however odd)
+    for car in ["GASNATURAL", "GASOLEO", "GLP", "CARBON", "BIOCARBURANTE", "BIOMASA", "BIOMASADENSIFICADA", "RED1", "RED2", "TERMOSOLAR", "EAMBIENTE", "ELECTRICIDAD"] {
         al.push(Letter::many(vec![p(Some(5), "EL_COGEN", &k(&[1, 2])), u(Some(5), "COGEN", car, &k(&[3, 3]))]));
     }
     for src in ["EL_INSITU", "TERMOSOLAR", "EAMBIENTE"] {
